@@ -569,6 +569,11 @@ fn run_nested() {
     }
 }
 
+/// Always true, opaque to the compiler (bodies with an early `return` on the path every call takes).
+pub fn yes() -> bool {
+    std::hint::black_box(true)
+}
+
 pub fn body_plain(fn_id: u32, pad: u32, parts: &[&dyn Enc]) -> String {
     run_nested();
     note_exec(fn_id);
